@@ -4,7 +4,7 @@ Part (a)  spec/ElicitDefs.tla states the properties A1..A6 (PROPERTIES block) an
   ServerSession.Elicit / Client.elicit / validateElicitSchema and helpers / Client.capabilities /
   callElicitationCompleteHandler.  TLC (module Elicit) enumerates the complete product (paths x capability
   declarations x modes x url / elicitationId x schema classes x required x handler answers; messages without
-  params), checks that the property fails on the code-shaped Expected exactly on the named deviations D1..D3, and
+  params), checks that the property fails on the code-shaped Expected exactly on the named deviations D2, D3, and
   exports the cases.  harness/mcp/x10_elicit_test.go (TestVerif_X10Table) runs every case on a real client against
   a real server (three protocol eras, direct Elicit and InputRequests) or a scripted raw peer; ElicitMon judges
   the outcomes (verdict) and compares them with Expected (drift).
@@ -169,7 +169,7 @@ def table_prepare(v, replay, out, design):
         raise vlib.MachineryError("Elicit design check failed (Holds(c, Expected(c)) <=> no named deviation): %s\n%s" % (
             res.violation, "\n".join(res.stdout.splitlines()[-15:])))
     info = [p for p in res.printed if isinstance(p, dict) and "cases" in p][0]
-    v.add_tlc("Elicit (design: Holds(c, Expected(c)) fails exactly on D1..D3; export)", res)
+    v.add_tlc("Elicit (design: Holds(c, Expected(c)) fails exactly on D2, D3; export)", res)
     v.cov["table"] = info
     cases = os.path.join(out, "cases.ndjson")
     if replay is not None:
